@@ -278,8 +278,6 @@ def opdepth(node):
         return 1
     kids = children(node)
     d = max(opdepth(c) for c in kids)
-    if k == 'scope' and kids[0][0] in ('add', 'frac', 'mul', 'pow') and False:
-        return d
     return 1 + d
 
 
